@@ -4,8 +4,10 @@ import (
 	"fmt"
 	"regexp"
 	"strings"
+	"time"
 
 	"verifharness/bn"
+	"verifharness/ev"
 	"verifharness/model"
 	"verifharness/reflex"
 	"verifharness/refparse"
@@ -141,6 +143,23 @@ func (c *Ctx) runModelCase(s *Sub, src, stdin string, opt model.Options, o judge
 	budget := 50*res.Steps + 100000
 	mc.Resp = c.W().Run(run.Req{Src: src, Stdin: stdin, Budget: budget, Depth: 4000})
 	mc.Sig, mc.Msg = judgeModel(&mc.Resp, res, budget, o)
+	// CLI cross-check of a deterministic sample: the batch mode (verif hook) and
+	// the ordinary executable must show the same behaviour for the same program
+	every := uint64(400)
+	if c.Thorough {
+		every = 150
+	}
+	if mc.Sig == "" && ev.Hash(src)%every == 0 && (mc.Resp.Class() == run.Clean || mc.Resp.Class() == run.RtError) {
+		cr := c.CLIScript(src, stdin, 30*time.Second)
+		c.Ev.Class("cli-crosscheck")
+		wantStatus := 0
+		if mc.Resp.Class() == run.RtError {
+			wantStatus = 70
+		}
+		if !cr.TimedOut && (cr.Stdout != mc.Resp.Out || cr.Status != wantStatus || run.FirstLine(cr.Stderr) != run.FirstLine(mc.Resp.Err)) {
+			mc.Sig, mc.Msg = "cli-vs-batch", fmt.Sprintf("the ordinary executable behaves differently from the batch mode of the same build: status=%d stdout=%q stderr=%q", cr.Status, clip(cr.Stdout, 300), clip(cr.Stderr, 200))
+		}
+	}
 	return mc
 }
 
